@@ -255,10 +255,14 @@ def run(case, kind, seed=0, vec_limit=48, out_of_range=False, check_enum=True, e
     # constraints, no connection choices, outside the known-finding classes (their mechanisms are not modelled)
     fq, finfo = [], []
     fast_vars = None
-    if kind == 'fast' and not case.get('cons') and not case.get('conn') and not dsgcase.guards(case):
+    if kind == 'fast' and not case.get('conn') and not dsgcase.guards(case):
         declared = {e[1]: (j, e[2]) for j, e in enumerate(E) if e[0] == 'sel'}
-        order = sorted((sc['id'] for sc in case['sel']), key=lambda c: 'S%02d' % c)
+        # design-vector order: the declared selection variables as the encoding lists them (the analyzer orders choices
+        # layer by layer), the undeclared (forced) ones after them -- they have one value; application order: by decision id
+        by_id = sorted((sc['id'] for sc in case['sel']), key=lambda c: 'S%02d' % c)
+        order = [e[1] for e in E if e[0] == 'sel'] + [c for c in by_id if c not in declared]
         fast_vars = [[c, list(declared[c][1]) if c in declared else list(b.opt_order[c])] for c in order]
+        fast_ovars = sorted(fast_vars, key=lambda v: 'S%02d' % v[0])
         fast_x = [(c, declared[c][0]) for c in order if c in declared]
     seen_out = {}
     inv = {}
@@ -289,7 +293,7 @@ def run(case, kind, seed=0, vec_limit=48, out_of_range=False, check_enum=True, e
         dinfo.append((x, x2, act, nodes, dvv))
         images.add(tuple(nodes))
         if fast_vars is not None and all(e[0] != 'sel' or (float(v).is_integer() and 0 <= v < len(e[2])) for v, e in zip(x, E)):
-            fq.append(sx(['fast_decode', True, mg, fast_vars,
+            fq.append(sx(['fast_decode', True, mg, fast_ovars, fast_vars,
                           [int(x[dict(fast_x)[c]]) if c in dict(fast_x) else 0 for c, _ in fast_vars],
                           [False] * len(fast_vars)]))
             finfo.append((x, x2, act, nodes))
@@ -307,7 +311,7 @@ def run(case, kind, seed=0, vec_limit=48, out_of_range=False, check_enum=True, e
         except Exception as ex:
             fail('decode-raises-on-feasible-space:' + exc_sig(ex), 'x=%s (second decode): %s: %s' % (x, type(ex).__name__, ex))
     if fast_vars is not None:
-        tags.append('fast-model-decodes=%s' % ('0' if not fq else '1-9' if len(fq) < 10 else '10+'))
+        tags.append('fast-model-decodes=%s%s' % ('0' if not fq else '1-9' if len(fq) < 10 else '10+', '+constraint' if case.get('cons') else ''))
     for (x, x2, act, nodes), m in zip(finfo, run_dsgm(fq) if fq else []):
         if is_model_error(m) or m == 'none':
             fails.append({'clause': 'model-error', 'detail': sx(m), 'no_input': True})
